@@ -67,8 +67,17 @@ TLookup == /\ Is("lookup")
                          Check("lookup.weighted_depth", (N >= 2 /\ K >= 2 /\ K <= N) =>
                                   Abs(Ev.Aq * Ev.zr[K - 1] + (4096 - Ev.Aq) * Ev.zr[K] - 4096 * cl) <= 4096 * 3 + Abs(Ev.zr[K] - Ev.zr[K - 1]))>>))
            /\ UNCHANGED tid
+\* lookup for a particle that is not at a cell centre: the level column is that of the particle's OWN cell (nearest rho point;
+\* either neighbour exactly at a cell edge).  cols = the level columns of the two neighbouring cells, xq = position in quarters
+OwnCol(xq) == LET c == (2 * xq + 4) \div 8   r == (2 * xq + 4) % 8 IN IF r = 0 THEN {c - 1, c} ELSE {c}
+TLookup2 == /\ Is("lookup2")
+            /\ Mark(Check("lookup.own_cell_column", \E c \in OwnCol(Ev.xq) : c \in {0, 1} /\
+                     LET zr == Ev.cols[c + 1]   N == Len(zr)   K == Ev.K + 1   cl == Clamp(Ev.zneg, zr[1], zr[N]) IN
+                     /\ K >= 2 /\ K <= N /\ zr[K - 1] - 2 <= cl /\ cl <= zr[K] + 2
+                     /\ Abs(Ev.Aq * zr[K - 1] + (4096 - Ev.Aq) * zr[K] - 4096 * cl) <= 4096 * 3 + Abs(zr[K] - zr[K - 1])))
+            /\ UNCHANGED tid
 Crash == Is("crash") /\ Mark(Check("run.crashed", FALSE)) /\ UNCHANGED tid
-Next == Setup \/ Eof \/ TZ2S \/ TSDepth \/ TCurve \/ TLevels \/ TLookup \/ Crash
+Next == TLookup2 \/ Setup \/ Eof \/ TZ2S \/ TSDepth \/ TCurve \/ TLevels \/ TLookup \/ Crash
 Spec == Init /\ [][Next]_vars
 Accepted == TLCGet("stats").diameter - 1 = Len(Tr)
 =============================================================================
